@@ -12,6 +12,13 @@ CLAIMED = {
         design_ref="DESIGN.md §3.1",
         note="Trusts numpy/scipy serial expressions as reference; concurrency inside one nogil kernel call is modelled at task granularity (atomic tasks + snapshot-merge); no OS threads are used for verdicts.",
     ),
+    "C14": dict(
+        category="fault_enumeration",
+        technique="deterministic simulation of belief propagation as a message-passing system: simulator-owned activation schedule (touched), message loss / staleness / duplication / corruption / knob changes, settled-message reference model, bounded-round convergence after faults stop; plus library-scheduled runs over drawn options",
+        text="Seeded random forests (hyper-edges, dangling indices, several components, lazy site groups) for all six BP flavours. Configuration B replaces the round loop by a recorded activation schedule with injected message faults; after every quantum every message the model proves settled must equal the exact message, and after the faults stop all messages, the contraction value and all marginals must be exact within diameter-bounded fair rounds (or after the library's own run()). Configuration A runs the library loop under drawn update / damping / local-convergence / normalisation / initial-message / insertion-order options and the function entry points, incl. gauge/compress invariance. Sampling: evidence, not proof.",
+        design_ref="DESIGN.md §3.2",
+        note="Dense numpy einsum of <= 8 small tensors is the exact reference; signed/complex data judged only undamped and when every exact message is well conditioned; HV1BP pool tasks scheduled by the simulated pool.",
+    ),
 }
 
 NOT_APPLICABLE = {
